@@ -485,6 +485,7 @@ pub fn replay(prop: &str, case: &SearchCase) -> Vec<Finding> {
         "c14-rounds" => crate::search2::check_c14(case).into_iter().collect(),
         c if c.starts_with("sim:") => crate::search3::replay_sim(case).into_iter().collect(),
         "c20" => crate::search2::check_c20(case, &mut crate::driver::Driver::spawn().ok()).into_iter().collect(),
+        "c20w" => crate::search2::check_c20_wide(case).into_iter().collect(),
         "c13-inorder" | "c13-random" => crate::search2::check_c13(case).into_iter().collect(),
         c if c.starts_with("c17-twin") => crate::search2::check_c17(case).into_iter().collect(),
         _ => vec![],
